@@ -40,7 +40,7 @@ type HubCase struct {
 }
 
 var hubMuts = []string{"none", "none", "hub-pays-extra", "hub-pays-other-share", "peer-pays-less", "amount+1", "other-locked-added", "imap-swapped", "imap-swapped-consistent", "imap-swapped-consistent"}
-var hubSettleMuts = []string{"none", "none", "hub-gets-less", "peer-gets-all", "keep-suballoc", "other-final", "other-final"}
+var hubSettleMuts = []string{"none", "none", "hub-gets-less", "peer-gets-all", "keep-suballoc", "other-final", "other-final", "relabel-other-locked", "other-locked-imap"}
 
 func drawHubCase(t *rapid.T) HubCase {
 	var c HubCase
@@ -532,6 +532,25 @@ func runHubCase(c HubCase) *h.Outcome {
 				s.Balances[0][hI] = new(big.Int).Sub(s.Balances[0][hI], gain[hI])
 			case "keep-suballoc":
 				remove = false
+			case "relabel-other-locked", "other-locked-imap":
+				// correct for the settled channel, but the locked entry of the SECOND
+				// virtual channel is edited in the same update
+				found := false
+				for k := range s.Locked {
+					if s.Locked[k].ID == secondID && secondID != (channel.ID{}) {
+						found = true
+						if mut == "relabel-other-locked" {
+							s.Locked[k].ID[7] ^= 0x08
+						} else if len(s.Locked[k].IndexMap) == 2 {
+							im := append([]channel.Index(nil), s.Locked[k].IndexMap...)
+							im[0], im[1] = im[1], im[0]
+							s.Locked[k].IndexMap = im
+						}
+					}
+				}
+				if !found {
+					ok = false
+				}
 			}
 			if !ok {
 				mut = "none"
